@@ -75,11 +75,20 @@ def stitch_switch(t, site, uplinks):
     return sw, sf, ports
 
 
-def _isolated_stitch_node(adm):
+def _isolated_stitch_node(adm, ids=('iso-x',)):
     # a stitching element without any connection inside the model (a shared exchange point nothing is attached to yet);
     # written into the delegation model itself, so that the family does not depend on how the partitioner treats it
-    adm.add_node(node_id='iso-x', label='NetworkNode',
-                 props={'Name': 'iso-x', 'Type': 'Switch', 'Site': 'X', 'StitchNode': 'true'})
+    for i in ids:
+        adm.add_node(node_id=i, label='NetworkNode', props={'Name': i, 'Type': 'Switch', 'Site': 'X', 'StitchNode': 'true'})
+
+
+def edge_adm(adm_id):
+    """a delegation model that consists of two stitching elements other models know as well, and of the one connection
+    between them that only this model knows"""
+    g = NetworkXPropertyGraph(graph_id=adm_id, importer=world.shared_importer())
+    _isolated_stitch_node(g, ('iso-x', 'iso-y'))
+    g.add_link(node_a='iso-x', rel='connects', node_b='iso-y')
+    return g
 
 
 def site_adm(site, adm_id, iso=False):
@@ -96,7 +105,7 @@ def site_adm(site, adm_id, iso=False):
     adms = arm.generate_adms(delegation_guids={'d1': adm_id})
     arm.delete_graph()
     if iso:
-        _isolated_stitch_node(adms['d1'])
+        _isolated_stitch_node(adms['d1'], ('iso-x', 'iso-y') if iso == 'iso2' else ('iso-x',))
     return adms['d1']
 
 
@@ -127,6 +136,8 @@ def network_adm(name, adm_id, ends, kinds=None, extra=False, iso=False):
 
 
 FAMILIES = {
+    # a model all of whose elements the site model has too, and whose only own contribution is a connection between them
+    'F2e': [('site', 'A', 'ADM-A', 'iso2'), ('edge', 'D', 'ADM-D')],
     # shared elements whose copies differ in a plain property: the combined element has the properties of the copy that
     # brought it in (the merge code's 'use CBM' rule), whatever is merged onto it later
     # both models contain a stitching element that has no connection at all
@@ -174,8 +185,10 @@ class CBMModel(Model):
         world.reset_all()
         self.adm_ids = []
         for spec in FAMILIES[self.family]:
-            iso = spec[-1] == 'iso'
-            if spec[0] == 'site':
+            iso = spec[-1] if spec[-1] in ('iso', 'iso2') else False
+            if spec[0] == 'edge':
+                edge_adm(spec[2])
+            elif spec[0] == 'site':
                 site_adm(spec[1], spec[2], iso=iso)
             else:
                 network_adm(spec[1], spec[2], spec[3], spec[4] if len(spec) > 4 else None, bool(spec[5]) if len(spec) > 5 else False, iso=iso)
@@ -264,6 +277,11 @@ class CBMModel(Model):
                 edges.setdefault(e, d)
         return nodes, edges
 
+    def _stale_connections_only(self, got_e, want_e, want_n, merged):
+        extra = set(got_e) - set(want_e)
+        return bool(extra) and not (set(want_e) - set(got_e)) and all(
+            set(e) <= set(want_n) and any(e in self.sources[a][1] for a in self.adm_ids if a not in merged) for e in extra)
+
     def check(self, pre, ev, outcome):
         v = []
         if outcome[0] != 'ok':
@@ -299,7 +317,12 @@ class CBMModel(Model):
             if rest != w['props']:
                 diff = sorted(k for k in set(rest) | set(w['props']) if rest.get(k) != w['props'].get(k))
                 v.append(('union/other-properties', f'{nid}: differs in {diff} {ctx}'))
-        if set(got_e) != set(want_e):
+        extra_e = set(got_e) - set(want_e)
+        if self._stale_connections_only(got_e, want_e, want_n, self.merged):
+            # every element of the connection survives, the connection itself came only with models that are not merged (any more)
+            v.append(('unmerge/connection-of-the-unmerged-model-between-surviving-elements-stays',
+                      f'extra {[sorted(e) for e in extra_e]} {ctx}'))
+        elif set(got_e) != set(want_e):
             v.append(('union/edges', f'extra {[sorted(e) for e in set(got_e) - set(want_e)]} missing {[sorted(e) for e in set(want_e) - set(got_e)]} {ctx}'))
         else:
             for e in got_e:
@@ -315,7 +338,10 @@ class CBMModel(Model):
         for snp in self.snap:
             sn, se = graph_content(snp[0])
             wn, we = self.expected(snp[1], snp[2])
-            if set(sn) != set(wn) or set(se) != set(we):
+            if set(sn) == set(wn) and self._stale_connections_only(se, we, wn, snp[1]):
+                # the snapshot faithfully copied a combined model that already carried the left-over connection
+                v.append(('unmerge/connection-of-the-unmerged-model-between-surviving-elements-stays', f'(in the snapshot) {ctx}'))
+            elif set(sn) != set(wn) or set(se) != set(we):
                 v.append(('snapshot-content', ctx))
         cross = [1 for a, b in world.shared_store().graphs.edges()
                  if world.shared_store().graphs.nodes[a].get('GraphID') != world.shared_store().graphs.nodes[b].get('GraphID')]
@@ -389,7 +415,7 @@ def run(report):
                   rule=f'families F2 and F3: EVERY merge / unmerge sequence up to length {d}, all steps through one combined-model '
                        f'handle, reference union after every step')
     q = report.tier == 'quick'
-    for fam, depth in (('F2', 7), ('F2x', 6), ('F2o', 6), ('F2c', 6), ('F3', 6 if q else 8), ('F3m', 6 if q else 8), ('F4', 5 if q else 8)):
+    for fam, depth in (('F2', 7), ('F2e', 6), ('F2x', 6), ('F2o', 6), ('F2c', 6), ('F3', 6 if q else 8), ('F3m', 6 if q else 8), ('F4', 5 if q else 8)):
         g = bfs(report, fam, MODELS[fam], depth=depth, chunk=2,
                 rule=f'family {fam}: merge(X) / unmerge(X) / snapshot / rollback histories to depth {depth}; the combined graph is '
                      f'compared with the reference union of the merged set after every step (so equal sets reached by different '
